@@ -68,15 +68,15 @@ Proof.
   destruct (is_admin c && _); [reflexivity|]. cbn [fst]. destruct (is_admin c); reflexivity.
 Qed.
 
-Lemma gstate_commit_here_unauth c e r : e_auth e = false -> gstate (fst (commit_here c e r)) = gstate c.
+Lemma gstate_commit_here_unauth c e r : e_auth e = false \/ e_bad e = 8 -> gstate (fst (commit_here c e r)) = gstate c.
 Proof.
   intros Ha. unfold commit_here. destruct (negb (forallb _ (e_refs e))); [reflexivity|].
-  rewrite Ha. reflexivity.
+  destruct Ha as [Ha|Ha]; rewrite Ha; [reflexivity|]. rewrite orb_true_r. reflexivity.
 Qed.
 
 (* events that cannot move the group state where they are handled *)
 Definition harmless_here (c : client) (e : event) : Prop :=
-  (e_kind e = 1 \/ e_kind e = 2) \/ (e_author e <> me c /\ e_auth e = false).
+  (e_kind e = 1 \/ e_kind e = 2) \/ (e_author e <> me c /\ (e_auth e = false \/ e_bad e = 8)).
 
 Lemma gstate_here c e r : harmless_here c e -> gstate (fst (here c e r)) = gstate c.
 Proof.
@@ -116,7 +116,13 @@ Qed.
 Lemma unauthorised_commit_frame : forall c e,
   e_kind e = 0 -> e_author e <> me c -> e_auth e = false ->
   rollbacks (fst (deliver c e)) = rollbacks c -> gstate (fst (deliver c e)) = gstate c.
-Proof. intros c e _ Hne Hau. apply gstate_process. right. right. split; [exact Hne|exact Hau]. Qed.
+Proof. intros c e _ Hne Hau. apply gstate_process. right. right. split; [exact Hne|left; exact Hau]. Qed.
+
+(* a commit that changes a member's identity (validate_commit_identities refuses it) never moves the group state either *)
+Lemma identity_change_commit_frame : forall c e,
+  e_kind e = 0 -> e_author e <> me c -> e_bad e = 8 ->
+  rollbacks (fst (deliver c e)) = rollbacks c -> gstate (fst (deliver c e)) = gstate c.
+Proof. intros c e _ Hne Hb. apply gstate_process. right. right. split; [exact Hne|right; exact Hb]. Qed.
 
 Lemma proposal_alone_no_effect : forall c e,
   e_kind e = 2 -> rollbacks (fst (deliver c e)) = rollbacks c -> gstate (fst (deliver c e)) = gstate c.
@@ -221,7 +227,7 @@ Proof.
       * unfold leave_here. destruct (existsb (N.eqb (100000 + e_id e)) (k_seen (kc c))); [exact H|].
         destruct (is_admin c && _); exact H.
       * unfold commit_here. destruct (negb (forallb _ (e_refs e))); [exact H|].
-        destruct (negb (e_auth e)); [exact H|apply QR_apply_commit; exact H].
+        destruct (negb (e_auth e) || (e_bad e =? 8)); [exact H|apply QR_apply_commit; exact H].
 Qed.
 
 Lemma QR_process r fuel : forall c e, QR r c -> QR r (fst (process fuel c e)).
@@ -434,7 +440,7 @@ Proof.
         destruct (is_admin c); apply sim_same; reflexivity.
       * unfold commit_here. change (kc (restart c)) with (kc c).
         destruct (negb (forallb _ (e_refs e))); [apply sim_same; reflexivity|].
-        destruct (negb (e_auth e)); [apply sim_same; reflexivity|apply apply_commit_restart].
+        destruct (negb (e_auth e) || (e_bad e =? 8)); [apply sim_same; reflexivity|apply apply_commit_restart].
 Qed.
 
 Lemma restart_simulation_fuel f c e :
@@ -619,7 +625,7 @@ Proof.
       * apply Held_Grown. unfold leave_here. destruct (existsb (N.eqb (100000 + e_id e)) (k_seen (kc c))); [exact H|].
         destruct (is_admin c && _); [exact H|]. cbn [fst]. destruct (is_admin c); exact H.
       * unfold commit_here. destruct (negb (forallb _ (e_refs e))); [apply Held_Grown; exact H|].
-        destruct (negb (e_auth e)); [apply Held_Grown; exact H|apply Grown_apply_commit; exact H].
+        destruct (negb (e_auth e) || (e_bad e =? 8)); [apply Held_Grown; exact H|apply Grown_apply_commit; exact H].
 Qed.
 
 Lemma Grown_process L fuel : forall c e, Held L c -> Grown L (fst (process fuel c e)).
